@@ -337,7 +337,9 @@ T* copy_memory_or_deny_access(rlbox_sandbox<T_Sbx>& sandbox,
     free(copy);
     return nullptr;
   }
+  RLBOX_VERIF_YIELD("deny:after-check", num);
   std::memcpy(copy, src_raw, source_size);
+  RLBOX_VERIF_YIELD("deny:after-copy", num);
   if (free_source_on_copy) {
     sandbox.free_in_sandbox(src);
   }
